@@ -644,8 +644,21 @@ fn breadcrumb(pats: &[Vec<u8>], vals: &[u32], kind: MatchKind, nfbs: &[u32], hay
 }
 
 fn check_set(cx: &Ctx, pats: &[Vec<u8>], vals: &[u32], kind: MatchKind, nfbs: &[u32], hays: &[Vec<u8>], utf8: bool) {
-    let st = cx.st;
     breadcrumb(pats, vals, kind, nfbs, hays);
+    // a panic anywhere below (e.g. `Match::start` underflow, an index panic in a search) is itself a finding
+    let r = catch_unwind(AssertUnwindSafe(|| check_set_inner(cx, pats, vals, kind, nfbs, hays, utf8)));
+    if r.is_err() {
+        // find the haystack
+        let mut culprit: Vec<u8> = vec![];
+        for h in hays {
+            if catch_unwind(AssertUnwindSafe(|| check_set_inner(cx, pats, vals, kind, nfbs, &[h.clone()], utf8))).is_err() { culprit = h.clone(); break; }
+        }
+        cx.st.fail(mk_fail("PANIC", "the library panicked while searching / inspecting a match (valid input)", "any", kind, *nfbs.last().unwrap_or(&16), pats, vals, &culprit, "no panic".into(), "panic".into()));
+    }
+}
+
+fn check_set_inner(cx: &Ctx, pats: &[Vec<u8>], vals: &[u32], kind: MatchKind, nfbs: &[u32], hays: &[Vec<u8>], utf8: bool) {
+    let st = cx.st;
     let nfb0 = nfbs[0];
     // --- NFA stage contract (assumed by the Verus chain) ---
     let want_nfa = true;
@@ -1169,8 +1182,8 @@ fn replay(path: &str) -> i32 {
     let utf8 = pats.iter().all(|p| std::str::from_utf8(p).is_ok());
     let st = Stats::new();
     let mut props = BTreeSet::new();
-    props.insert(if prop == "NFA" || prop == "DA" || prop == "CRASH" { "C07".to_string() } else { prop.clone() });
-    if prop == "CRASH" { for p in ALL_PROPS { props.insert(p.to_string()); } }
+    props.insert(if prop == "NFA" || prop == "DA" || prop == "CRASH" || prop == "PANIC" { "C07".to_string() } else { prop.clone() });
+    if prop == "CRASH" || prop == "PANIC" { for p in ALL_PROPS { props.insert(p.to_string()); } }
     let cx = Ctx { st: &st, props: &props };
     println!("replaying {} on the real code: kind={:?} nfb={} patterns={:?} haystack={:?}", prop, kind, nfb, pats.iter().map(|p| String::from_utf8_lossy(p).to_string()).collect::<Vec<_>>(), String::from_utf8_lossy(&hay));
     if prop == "C10" && field("clause").starts_with("accepts") { check_accept(&cx, &pats, kind, utf8); }
